@@ -29,6 +29,7 @@ def shards(tier):
         {"name": "rand.torch", "mode": "jit", "backend": "torch", "fn": "rand", "n": 100 if q else 4000},
         {"name": "big.np.jit", "mode": "jit", "backend": "np", "fn": "big", "n": 1 if q else 12},
         {"name": "big.torch", "mode": "jit", "backend": "torch", "fn": "big", "n": 1 if q else 3},
+        {"name": "forms.torch", "mode": "jit", "backend": "torch", "fn": "rand", "n": 50 if q else 1500, "forms": 1},
         {"name": "n2.torch", "mode": "jit", "backend": "torch", "fn": "n2", "lo": 0, "hi": 11520, "stride": 24 if q else 2},
         {"name": "n2.np.interp", "mode": "interp", "backend": "np", "fn": "n2", "lo": 0, "hi": 11520, "stride": 12 if q else 2},
     ]
